@@ -153,8 +153,16 @@ def conclude(prop, tier, seed, results, extras, wall, partial=False):
     # replay every refuted obligation natively
     kinds = {}
     seen_classes = set()
+    replayed = 0
+    search_cache = {}
+    SEARCH_KINDS = ("smtlib-solver", "hashcons", "optimizer-loop")
+    MAX_REPLAYS = 12          # native replays per run; further refutations are reported without one
     for r, o in refuted:
         key = (r["variant"], o["name"].rsplit("/", 1)[1])
+        if replayed >= MAX_REPLAYS and match_known(prop, r.get("qualname"), o["name"], None, kf) is None:
+            path, rep = write_replay(prop, o, r, "not-replayed")
+            violations.append((path, False, o["name"], {"note": "refuted obligation; native replay budget of this run used up"}))
+            continue
         if key in seen_classes and len(seen_classes) > 6:
             # same function and clause as an already replayed refutation: report, do not replay again
             path, rep = write_replay(prop, o, r, "same-class")
@@ -168,7 +176,12 @@ def conclude(prop, tier, seed, results, extras, wall, partial=False):
         if k is not None:
             known_hits.setdefault(k["id"], {"k": k, "obls": [], "replay": path})["obls"].append(o["name"])
             continue
-        out = native([os.path.join(ROOT, "native", "replay.py"), path])
+        if kind in SEARCH_KINDS and kind in search_cache:
+            out = search_cache[kind]       # the replay of this kind is a search that does not depend on the obligation
+        else:
+            out = native([os.path.join(ROOT, "native", "replay.py"), path])
+            replayed += 1
+            search_cache[kind] = out
         confirmed = out.returncode == 1
         try:
             detail = json.loads(out.stdout.strip().split("\n")[-1]) if out.stdout.strip() else {}
@@ -289,8 +302,9 @@ def write_evidence(prop, tier, seed, wall, nob, ndis, by_backend, solver_s, func
     ev = {"property_id": prop, "tier": tier if tier in ("quick", "thorough") else "quick", "seed": seed,
           "level": level, "coverage": cov, "assumptions": ass, "wall_s": round(wall, 2),
           "violations": len(violations)}
-    os.makedirs(os.path.join(ROOT, "evidence"), exist_ok=True)
-    json.dump(ev, open(os.path.join(ROOT, "evidence", "%s.json" % prop), "w"), indent=1, default=str)
+    evdir = os.environ.get("PYVC_EVIDENCE_DIR") or os.path.join(ROOT, "evidence")      # (development runs on scratch copies)
+    os.makedirs(evdir, exist_ok=True)
+    json.dump(ev, open(os.path.join(evdir, "%s.json" % prop), "w"), indent=1, default=str)
 
 
 def _z3v():
